@@ -187,7 +187,10 @@ impl Scenario for C17 {
         // read and hook) in half of their episodes
         let fine = if bk == Bk::V3Lc { b.rng.chance(2, 3) } else { b.rng.bool() };
         let bb = if fine { *b.rng.pick(&[2u32, 4, 16, 64]) } else { 0 };
-        b.push(Step::Threads { spec: ThreadSpec { node: 0, local: fk.local, secret: fk.secret, public: fk.public, pke_public: fk.pke_public, pke_secret: fk.pke_secret, scripts, sched, seed, fine, bb } });
+        // one episode in three: every worker owns a thread-local object that uses the library from its
+        // destructor, after whatever the library itself keeps per thread has been torn down
+        let exit_probe = b.rng.chance(1, 3);
+        b.push(Step::Threads { spec: ThreadSpec { node: 0, local: fk.local, secret: fk.secret, public: fk.public, pke_public: fk.pke_public, pke_secret: fk.pke_secret, scripts, sched, seed, fine, bb, exit_probe } });
         b.finish()
     }
 }
